@@ -1,7 +1,7 @@
 import CanvasProofs.Lemmas.C12
 /-!
 C12, PDF: the blocks of `PDF.RenderPath` (fill block, stroke set-up, painting) simulated by the
-interpreter, with the cache after each block, assuming lawful `==` (since 4ddfe43/4ddd6d5 every
+interpreter, with the cache after each block, assuming lawful `==` (since 8a6095d/413caa6 every
 paint sets its own alpha, no assumption on the cache's alpha is left).
 -/
 namespace Canvas.C12
